@@ -572,6 +572,13 @@ def full_circle_spreading(repo, rep):
 
 
 def run(repo, rep, tier):
+    rep.rule("R-C15-13", "the exponent s of the cos-2s spreading is the exact function of the requested spread: no limiter on it (a clipped s gives every broader / "
+                         "narrower request the limit's spread)")
+    rep.rule("R-C15-14", "a choice between two constructed shapes is made with where(), never by blending `cond * a + (1 - cond) * b` (0 * NaN leaks the shape that "
+                         "was not selected)")
+    from .round7 import no_limiter_on, no_arithmetic_blend
+    no_limiter_on(repo, rep, "R-C15-13", "wavespectra.construct.direction.cartwright", "cos", "the spreading exponent s")
+    no_arithmetic_blend(repo, rep, "R-C15-14", ("wavespectra.construct",))
     full_circle_spreading(repo, rep)
     positive_divisors(repo, rep)
     overflow_safe_depth_function(repo, rep)
